@@ -219,7 +219,7 @@ def judge(ctx, binary, specs):
                        what_text(spec, cls, text), case=line, detail=detail)
 
 
-def replay_case(ctx, binary, line):
+def _replay_line(ctx, binary, line):
     res, err = _ll.run_pairs(ctx, binary, "model_c08", [line])
     if res is None:
         ctx.broken("model-driver", "model_c08", "model driver failed: " + err)
@@ -254,6 +254,12 @@ def hlle_index_leg(ctx):
                        "written product columns for target_dimension=%d are %s, expected %s" % (d, o, want), case=lines[d])
 
 
+def replay_case(ctx, replay):
+    """check.py replay <file>: re-run exactly the recorded case on the implementation and the model"""
+    ctx.replay = replay
+    correspond(ctx)
+
+
 def correspond(ctx):
     binary, log = ctx.build_harness("c08_ll.cpp", name=_ll.harness_name("c08_ll.cpp"), extra=["-DV0810_HASH=" + _ll.hdr_hash()],
                                     flags=_ll.harness_flags())
@@ -262,7 +268,7 @@ def correspond(ctx):
         ctx.broken("harness-build", "harness c08_ll.cpp", "harness does not compile against the repository: " + log[-1500:])
         return
     if getattr(ctx, "replay", None) and ctx.replay.get("case"):
-        replay_case(ctx, binary, ctx.replay["case"])
+        _replay_line(ctx, binary, ctx.replay["case"])
         return
     r = ctx.rng
     quick = ctx.tier == "quick"
@@ -274,7 +280,7 @@ def correspond(ctx):
             for l in open(os.path.join(cdir, f)):
                 l = l.strip()
                 if l.startswith("op="):
-                    replay_case(ctx, binary, l)
+                    _replay_line(ctx, binary, l)
     plan = []
     reps = 3 if quick else 24
     for _ in range(reps):
